@@ -20,10 +20,14 @@ const (
 	FieldLost      = "field_lost"      // the write of one field is lost: null (B even) or the member is absent (B odd)
 	FieldMisdirect = "field_misdirect" // value B is written where value A belongs
 	FieldSwap      = "field_swap"      // values A and B change places
+	FieldFill      = "field_fill"      // a text overwritten, at its own length, by a fill pattern (0xAA, 0x80, 0xFF, 0xBF by B)
 )
 
+// FillPatterns are the bytes a store leaves where a value was never written: test and erase patterns.
+var FillPatterns = []byte{0xAA, 0x80, 0xFF, 0xBF}
+
 // FieldKinds are the record-level fault kinds.
-var FieldKinds = []string{FieldTruncate, FieldLost, FieldMisdirect, FieldSwap}
+var FieldKinds = []string{FieldTruncate, FieldLost, FieldMisdirect, FieldSwap, FieldFill}
 
 // Span is one JSON value inside a message.
 type Span struct {
@@ -196,6 +200,30 @@ func applyField(msg []byte, f Fault) []byte {
 		content := sp.Hi - sp.Lo - 2
 		keep := f.B % (content + 1)
 		return splice(sp.Lo+1+keep, sp.Hi-1, nil)
+	case FieldFill:
+		var strs []Span
+		for _, sp := range spans {
+			if sp.Kind == 's' && sp.Hi-sp.Lo > 2 {
+				strs = append(strs, sp)
+			}
+		}
+		if len(strs) == 0 {
+			return msg
+		}
+		// texts come first by length half of the time (A odd: the longest text; A even: text #A/2)
+		sp := strs[(f.A/2)%len(strs)]
+		if f.A%2 == 1 {
+			for _, c := range strs {
+				if c.Hi-c.Lo > sp.Hi-sp.Lo {
+					sp = c
+				}
+			}
+		}
+		fill := make([]byte, sp.Hi-sp.Lo-2)
+		for i := range fill {
+			fill[i] = FillPatterns[f.B%len(FillPatterns)]
+		}
+		return splice(sp.Lo+1, sp.Hi-1, fill)
 	case FieldLost:
 		// (never the whole document: that is total_loss)
 		if len(spans) < 2 {
